@@ -183,6 +183,29 @@ harness! {
     }
 }
 
+// the same from a state with one arbitrary pending backlog entry and one arbitrary centroid (loop-free, full f64 domain): the new
+// entry is appended, nothing already stored is touched or folded
+harness! {
+    fn c16_td_insert_weighted_inner_pending() {
+        let mut d = TDigestInner::new(K0::new(10.), 1000);
+        let (c0, s0, c1, s1): (f64, f64, f64, f64) = (any(), any(), any(), any());
+        assume(c0 > 0. && c0.is_finite() && !s0.is_nan() && c1 > 0. && c1.is_finite() && !s1.is_nan());
+        d.centroids.push(Centroid { count: c1, sum: s1 });
+        d.backlog.push(Centroid { count: c0, sum: s0 });
+        d.min = any();
+        d.max = any();
+        assume(!d.min.is_nan() && !d.max.is_nan());
+        d.n_samples = 2;
+        let x: f64 = any();
+        let w: f64 = any();
+        assume(x.is_finite() && w.is_finite() && w > 0.);
+        d.insert_weighted(x, w);
+        assert!(d.backlog.len() == 2 && d.backlog[1].count == w && d.backlog[1].sum == x * w, "C16 the weighted value is queued unchanged, as its own entry");
+        assert!(d.backlog[0].count == c0 && d.backlog[0].sum.to_bits() == s0.to_bits(), "C16 pending entries are not touched by an insert");
+        assert!(d.centroids.len() == 1 && d.centroids[0].count == c1 && d.centroids[0].sum.to_bits() == s1.to_bits() && d.n_samples == 3, "C16 insert touches nothing else");
+    }
+}
+
 // zero weight changes nothing (wrapper): complete
 harness! {
     fn c16_td_zero_weight_noop() {
